@@ -678,8 +678,39 @@ def r02e(ctx, P, rid="R02.e"):
 THOROUGH_FEATURES = ['r02e']
 
 
+def r02f(ctx, P, rid="R02.f"):
+    ctx.rule(rid, "MEASURE THE FILE (rollback points are log lengths): Wal::len returns a value that derives from seeking to the END of "
+                  "the file (a Seek::seek whose argument is SeekFrom::End) — not from the handle's cursor alone (stream_position): a "
+                  "handle opened for append has cursor 0 until its first write, and commit / add_documents use len() as the length to "
+                  "cut the log back to when they fail, so a `length` of 0 erases every operation acknowledged earlier")
+    f = P.fn(N.WAL + "::len")
+    if not ctx.anchor(rid, f, "Wal::len"):
+        return
+    ctx.saw(f)
+    sl = Slice(f, through_all_calls=True)
+    ok = False
+    for d in f.defs().get(0, []):
+        ops = d["t"]["args"] if d["k"] == "call" else (d["rv"].get("ops") or [d["rv"].get("a")])
+        for o in ops:
+            if not isinstance(o, dict):
+                continue
+            for x in sl.sources(o):
+                if x[0] == "call" and callee_of(x[2]).endswith("Seek>::seek") or (x[0] == "call" and callee_of(x[2]).endswith("::seek")):
+                    for a in x[2]["args"][1:]:
+                        if any(y[0] == "agg" and y[3].get("variant") == "End" and "SeekFrom" in (y[3].get("adt") or "") for y in sl.sources(a)):
+                            ok = True
+    users = sorted({g.short for q, g in P.fns.items() if g.crate == "searchlite_core" and not is_test_or_bench(g) and
+                    any(callee_of(t) == f.path for b, t in g.calls())})
+    ctx.ob(rid, "%s:Wal::len:seeks-to-end" % rid, ok,
+           "Wal::len reports the position of the end of the file (used as rollback point by %s)" % ", ".join(u.rsplit("::", 1)[-1] for u in users) if ok else
+           "Wal::len does not derive its result from a seek to SeekFrom::End: on a handle that has not written yet it reports the cursor "
+           "(0), and the error paths of %s cut the log back to that `length`" % ", ".join(u.rsplit("::", 1)[-1] for u in users),
+           "%s:%s" % (f.file, f.line))
+
+
 def run(ctx, progs):
     P = progs.get("default")
+    r02f(ctx, P)
     r02e(ctx, P)
     rep = r02a(ctx, P)
     if rep is not None:
